@@ -578,40 +578,55 @@ def run(prog: Program) -> Results:
     res.analysed_functions.add(fcs.key)
     pscopes = {norm(d.targets[0]) for d in walk_no_nested(fcs.node) if isinstance(d, ast.Assign) and isinstance(d.value, ast.Call)
                and callee(d.value) == "Scope" and any(k.arg == "owner" for k in d.value.keywords)}
-    pm10 = None
-    for c in walk_no_nested(fcs.node):
-        if isinstance(c, ast.Call) and isinstance(c.func, ast.Attribute) and c.func.attr in ("append", "extend", "insert", "__iadd__") \
-                and norm(c.func.value) in pscopes:
+    from sa.seqbuild import SeqBuilder as _SB
+    from sa.util import Aliases as _Al
+    al7 = _Al(fcs.node)
+    for ps in sorted(pscopes):
+        segs7 = _SB(fcs.node).sequence(ps)
+        if segs7 is None:
+            res.unclass(f"function_call_scope: how `{ps}` is filled was not recognised")
+            continue
+        for seg in segs7:
             r7.instances += 1
-            from sa.util import parent_map as _pm
-            pm10 = pm10 or _pm(fcs.node)
-            cur, loop = c, None
-            while cur in pm10:
-                cur = pm10[cur]
-                if isinstance(cur, ast.For):
-                    loop = cur
-                    break
-            ok = False
-            why = "outside any loop over the formals"
-            if c.func.attr == "append" and c.args:
-                a = c.args[0]
+            ok, why, at = False, "", seg[1]
+            if seg[0] == "each":
+                it, elt = seg[1], seg[3]
+                loop = seg[4] if len(seg) > 4 else None
+                # the loop variable: of the for-statement, or of the generator the element comes from
+                pv = None
                 if loop is not None and isinstance(loop.target, ast.Name):
                     pv = loop.target.id
-                    # the appended binding is looked up / built under the formal's own name
-                    src = a
-                    if isinstance(a, ast.Name):
-                        ds = [d for d in ast.walk(loop) if isinstance(d, ast.Assign) and norm(d.targets[0]) == a.id]
-                        src = ds[0].value if len(ds) == 1 else a
-                    ok = f"{pv}.name" in norm(src)
-                    why = f"`{norm(src)[:50]}` is not keyed by `{pv}.name`"
-                elif loop is None:
-                    # single-identifier parameter: Binding(name=parameters.name, …)
-                    ok = isinstance(a, ast.Call) and callee(a) == "Binding" and any(k.arg == "name" and norm(k.value).endswith(".name") for k in a.keywords)
-                    why = "not a binding named after the parameter"
-            r7.ob(ok, {"write": norm(c)[:70]})
+                else:
+                    for gexp in ast.walk(fcs.node):
+                        if isinstance(gexp, (ast.GeneratorExp, ast.ListComp)) and gexp.elt is elt and isinstance(gexp.generators[0].target, ast.Name):
+                            pv = gexp.generators[0].target.id
+                formals_iter = al7.norm(it).endswith(".argument_set")
+                src = elt
+                if isinstance(elt, ast.Name) and loop is not None:
+                    ds = [d for d in ast.walk(loop) if isinstance(d, ast.Assign) and norm(d.targets[0]) == elt.id]
+                    src = ds[0].value if len(ds) == 1 else elt
+                keyed = False
+                if pv is not None and src is not None:
+                    keyed = f"{pv}.name" in norm(src)
+                    if not keyed and isinstance(src, ast.Call) and isinstance(src.func, ast.Name) and src.func.id in prog.funcs:
+                        # a helper that receives the formal and looks it up under its own name
+                        h7 = prog.funcs[src.func.id]
+                        for pos, a_ in enumerate(src.args):
+                            if isinstance(a_, ast.Name) and a_.id == pv and pos < len(h7.params()):
+                                hp = h7.params()[pos]
+                                keyed = any(isinstance(x, ast.Attribute) and x.attr == "name" and norm(x.value) == hp for x in ast.walk(h7.node))
+                ok = formals_iter and keyed
+                why = ("it iterates `" + norm(it)[:40] + "`, not the declared formals") if not formals_iter else \
+                    f"`{norm(src)[:50] if src is not None else '?'}` is not keyed by the formal's own name"
+                at = elt if elt is not None else it
+            else:
+                a = seg[1]
+                ok = isinstance(a, ast.Call) and callee(a) == "Binding" and any(k.arg == "name" and norm(k.value).endswith(".name") for k in a.keywords)
+                why = "not a binding named after the parameter"
+            r7.ob(ok, {"write": norm(at)[:70]})
             if not ok:
-                res.add("R-C10-7", (fcs.key, "parameter scope receives bindings that are not formals", c.func.attr), fcs.loc(c),
-                        f"function_call_scope: `{norm(c)[:70]}` ({why}): attributes the caller passes through `...` become names bound in "
+                res.add("R-C10-7", (fcs.key, "parameter scope receives bindings that are not formals", seg[0]), fcs.loc(at),
+                        f"function_call_scope: `{norm(at)[:70]}` ({why}): attributes the caller passes through `...` become names bound in "
                         f"the body and shadow the enclosing let — `let b = 9; in ({{ a, ... }}: {{ x = b; }}) {{ a = 1; b = 2; }}` gives x = 2")
     # ---------------------------------------------------------------- R-C10-8 (shared with R-C11-1): no aliasing between documents
     from sa.rules.c11 import setter_copy_rule
